@@ -380,6 +380,9 @@ def rand_override(rng, c):
         return {"props": None, "valid_values": dict(rng.sample(items, k))}
     if fmt in ("float", "int", "uint8", "uint16", "uint32", "uint64"):
         p = {}
+        if rng.random() < 0.06:
+            # a badly typed bound: the properties are updated, then re-validation raises TypeError
+            return {"props": {rng.choice(["minValue", "maxValue"]): "oops"}, "valid_values": None}
         if rng.random() < 0.6:
             p["minValue"] = rng.choice([0, 1, 10, -10, 5])
         if rng.random() < 0.6:
@@ -422,6 +425,8 @@ BOUNDARY_PROGRAMS = [
     ["read_all_nv", ("override", None), "read_all_nv", "read_all", ("override", None), "read_all", "read_all_nv"],
     ["read_all", ("client_write", "none"), "read_all", ("client_write", "raise"), "read_all", "read_one", ("client_write", "ok"), "read_one"],
     ["read_one", "read_many", ("getter", "raise"), "read_many", "read_unknown", "read_all"],
+    # an override whose re-validation raises TypeError after the properties were updated
+    ["read_all_nv", "read_all", ("override_bad",), "read_all_nv", "read_all", "read_one"],
 ]
 
 
@@ -476,7 +481,11 @@ def gen_history(ctx: Ctx, pool, program=None, n_ops: Optional[int] = None) -> Hi
         return {"op": "getter", "obj": n, "mode": mode, "value": val}
 
     if program is not None:
-        t = (readable or live)[rng.randrange(len(readable or live))]
+        cands = readable or live
+        if ("override_bad",) in program:
+            numeric = [x for x in cands if x[3].properties["Format"] in ref.NUMERIC_FORMATS and not x[3].properties.get("ValidValues")]
+            cands = numeric or cands
+        t = cands[rng.randrange(len(cands))]
         key, acc, s, c = t
         n = rig.num(c)
         for step in program:
@@ -500,6 +509,8 @@ def gen_history(ctx: Ctx, pool, program=None, n_ops: Optional[int] = None) -> Hi
                 h.apply({"op": "getter", "obj": n, "mode": "value", "value": _other_value(rng, c)})
             elif step[0] == "override":
                 h.apply({"op": "override", "obj": n, **rand_override(rng, c)})
+            elif step[0] == "override_bad":
+                h.apply({"op": "override", "obj": n, "props": {"minValue": "oops"}, "valid_values": None})
             elif step[0] == "client_write":
                 v = _other_value(rng, c)
                 h.apply({"op": "client_write", "obj": n, "value": 0 if v is None else v, "cb": step[1]})
@@ -590,7 +601,7 @@ def run(ctx: Ctx):
         "after a mutation; distinct by configuration + op list."
     )
     pool = dbrig.spec_pool(Loader())
-    hs = generate(ctx, pool, ctx.n(70, 1500))
+    hs = generate(ctx, pool, ctx.n(400, 9000))
     model = run_model_parallel("C11", [h.line() for h in hs])
     for h, m in zip(hs, model):
         judge(ctx, h)
